@@ -11,6 +11,7 @@ mod p_degen;
 mod p_cov;
 mod p_cgr;
 mod p_rows;
+mod p_lines;
 mod util;
 
 use std::collections::HashMap;
@@ -104,6 +105,7 @@ fn main() {
         "c01" => p_kmer::c01(&o),
         "c02" => p_kmer::c02(&o),
         "c09" => p_min::c09(&o),
+        "c10" => p_lines::c10(&o),
         "c03" => p_posmaps::c03(&o),
         "c04" => p_rows::c04(&o),
         "c07" => p_count::c07(&o),
